@@ -20,7 +20,7 @@ RULE = ("unroll: random lint-clean DAGs (1..4 inputs, 1..6 gates of all eight ty
         "unknown state io, blackboxes) and name-stress circuits; non-trivial = at least one gate and n >= 1; distinct = canonical input hash")
 EXPLANATION = ("models of unroll / sequential_unroll through the API model compared with the returned graph and io map; oracle simulates the "
                "sequential machine step by step for every valuation of the free inputs of the unrolled circuit")
-SHARD = 6
+SHARD = 8
 HASHSEEDS = {"quick": [0, 1], "thorough": [0, 1]}
 MAX_FREE = {"quick": 6, "thorough": 10}
 
@@ -267,7 +267,7 @@ def worst_case_n(c0, tier):
     """largest n (<= the case's n) whose free inputs stay inside the budget for EVERY flag combination (clk / rst kept as inputs)"""
     k = len(c0["circuit"]["bbs"])
     ins = [x for x in c0["circuit"]["nodes"] if x[1] == "input"]
-    ns = [n for n in range(1, c0["n"] + 1) if k + n * len(ins) <= MAX_FREE[tier]]
+    ns = [n for n in range(1, c0["n"] + 1) if k + n * len(ins) <= MAX_FREE[tier] - (1 if tier == "quick" else 0)]   # 12 flag combinations each
     return max(ns) if ns else 1
 
 
@@ -304,7 +304,7 @@ def gen_seq_dict_orders(rng, tier):
 
 
 def generate(rng, tier):
-    nu, na, ns, nf = (50, 2, 20, 1) if tier == "quick" else (170, 5, 80, 3)
+    nu, na, ns, nf = (46, 1, 18, 1) if tier == "quick" else (170, 5, 80, 3)
     sc = float(os.environ.get("VERIF_SCALE", "1"))      # <1 only for mutant trials on a loaded machine
     nu, na, ns, nf = max(8, int(nu * sc)), max(1, int(na * sc)), max(8, int(ns * sc)), max(1, int(nf * sc))
     out = [gen_unroll(rng, tier) for _ in range(nu)]
@@ -317,7 +317,16 @@ def generate(rng, tier):
         out += gen_seq_dict_orders(rng, tier)
         out += gen_seq_unloaded_q(rng, tier)
         out += gen_seq_str_ign(rng, tier)
-    return out
+    # balance the Coq shards: the (heavy) sequential cases are spread evenly between the unroll cases
+    seqs = [c for c in out if c["fn"] != "unroll"]
+    unrs = [c for c in out if c["fn"] == "unroll"]
+    mixed, k = [], max(1, round(len(unrs) / max(1, len(seqs))))
+    while seqs or unrs:
+        if seqs:
+            mixed.append(seqs.pop(0))
+        mixed += unrs[:k]
+        unrs = unrs[k:]
+    return mixed
 
 
 def _call(cg, c, case):
